@@ -55,6 +55,54 @@ Definition available (order : list (nat * bool)) : list nat * list (nat * bool) 
 Definition available_unrepaired (order : list (nat * bool)) : list nat * list (nat * bool) :=
   (map fst order, filter (fun e => snd e) order).
 
+(* ---------- the routee pool under failures ----------
+   Each routee actor is running, suspended (it failed and waits for the router's decision) or stopped.
+   The router's routeesMap is pruned by availableRoutees on every Broadcast (every routee that is not
+   running is dropped) and updated when the router handles a routee's failure signal:
+   restart / resume put the routee back (handleRestartRoutee, handleResumeRoutee as repaired by
+   fixes/C21-resumed-routee.diff), stop removes it.  Every op is one turn of the router actor or one
+   step of a routee, so a history is any interleaving of them. *)
+Inductive rstatus := RRunning | RSuspended | RStopped.
+Inductive directive := DRestart | DResume | DStop | DResumeUnrepaired.
+Inductive pool_op :=
+| PFail (r : nat)                       (* routee r fails: it suspends itself, the signal is on its way *)
+| PStopOutside (r : nat)                (* routee r is stopped from outside the router *)
+| PBroadcast                            (* the router handles a Broadcast: availableRoutees, then fan-out *)
+| PSignal (r : nat) (d : directive).    (* the router handles r's failure signal under directive d *)
+
+Record pool := mkPool { p_status : nat -> rstatus; p_map : list nat }.
+
+Definition is_running (st : nat -> rstatus) (r : nat) : bool :=
+  match st r with RRunning => true | _ => false end.
+Definition set_status (st : nat -> rstatus) (r : nat) (v : rstatus) : nat -> rstatus :=
+  fun x => if Nat.eqb x r then v else st x.
+Definition map_add (r : nat) (m : list nat) : list nat := if existsb (Nat.eqb r) m then m else r :: m.
+Definition map_del (r : nat) (m : list nat) : list nat := filter (fun x => negb (Nat.eqb x r)) m.
+
+(* new pool and, for a Broadcast, the routees the message is told to *)
+Definition pool_step (p : pool) (op : pool_op) : pool * option (list nat) :=
+  match op with
+  | PFail r => (mkPool (if is_running (p_status p) r then set_status (p_status p) r RSuspended else p_status p) (p_map p), None)
+  | PStopOutside r => (mkPool (set_status (p_status p) r RStopped) (p_map p), None)
+  | PBroadcast => let live := filter (is_running (p_status p)) (p_map p) in (mkPool (p_status p) live, Some (fanout live))
+  | PSignal r DRestart | PSignal r DResume =>
+      (match p_status p r with
+       | RSuspended => mkPool (set_status (p_status p) r RRunning) (map_add r (p_map p))
+       | _ => p
+       end, None)
+  | PSignal r DResumeUnrepaired =>
+      (match p_status p r with
+       | RSuspended => mkPool (set_status (p_status p) r RRunning) (p_map p)
+       | _ => p
+       end, None)
+  | PSignal r DStop => (mkPool (set_status (p_status p) r RStopped) (map_del r (p_map p)), None)
+  end.
+
+Fixpoint pool_run (p : pool) (ops : list pool_op) : pool :=
+  match ops with [] => p | op :: ops' => pool_run (fst (pool_step p op)) ops' end.
+
+Definition pool_init (children : list nat) : pool := mkPool (fun _ => RRunning) children.
+
 (* ---------- consistent-hash ring ---------- *)
 Section Ring.
   Variable hv : nat -> nat -> Z.     (* hv m i = hasher.HashCode("<member m>#<i>") *)
